@@ -14,12 +14,12 @@ import (
 
 // detProps lists, per engine, the properties whose runs are used by the determinism self-test.
 var detProps = map[string][]string{
-	"store-sim": {"C04", "C05", "C02"},
-	"stream-sim": {"C07"},
-	"merge-sim": {"C25"},
-	"query-sim": {"C11", "C30", "C31", "C06", "C08"},
+	"store-sim":   {"C04", "C05", "C02"},
+	"stream-sim":  {"C07"},
+	"merge-sim":   {"C25"},
+	"query-sim":   {"C11", "C30", "C31", "C06", "C08"},
 	"capture-sim": {"C21", "C22", "C29"},
-	"dist-sim": {"C15", "C31"},
+	"dist-sim":    {"C15", "C31"},
 }
 
 // detRuns is the number of runs (quick, thorough) whose event-log hashes are compared per property.
@@ -66,7 +66,7 @@ func rerunAlone(bin, scratch, id, knownPath string, seed int64, run, reps int, g
 			_ = cmd.Run()
 			b, err := os.ReadFile(out)
 			r := &struct {
-				DetHashes  map[int]uint64 `json:"det_hashes"`
+				DetHashes map[int]uint64 `json:"det_hashes"`
 			}{}
 			if err != nil || json.Unmarshal(b, r) != nil {
 				errs[k] = "no result: " + tail(buf.String(), 1000)
